@@ -79,7 +79,7 @@ class SolverWorld(World):
                "n_steps": rng.randint(4, 9) if not thorough else rng.randint(6, 15),
                "shots": rng.choice([None, None, None, 2000]), "faults": rng.random() < 0.8, "fault_rate": rng.choice([0.15, 0.3]),
                "ref_state": rng.random() < 0.2, "projective": rng.random() < 0.2, "deflation": rng.random() < 0.25,
-               "penalty": rng.random() < 0.15, "defl_coeff": rng.choice([1, 0.5, 2.0])}
+               "penalty": rng.random() < 0.15, "defl_coeff": rng.choice([1, 0.5, 2.0]), "defl_narrow": rng.random() < 0.5}
         if name in ("UCC1", "UCC3", "VSQS", "QMF", "QCC", "ILC", "pUCCD", "QHAM"):
             cfg["ref_state"] = False
         if name == "QHAM":
@@ -151,8 +151,13 @@ class SolverWorld(World):
             s.projective_circuit = Circuit([Gate("RZ", 0, parameter=0.37), Gate("H", n - 1), Gate("H", n - 1)], n_qubits=n)
         if cfg["deflation"]:
             from tangelo.toolboxes.qubit_mappings.statevector_mapping import get_reference_circuit
-            dc = Circuit([Gate("X", 0), Gate("RY", n - 1, parameter=0.8)], n_qubits=n)
-            s.deflation_circuits = [dc, Circuit([Gate("H", 0)], n_qubits=n)]
+            if cfg.get("defl_narrow"):
+                # hand-written deflation circuits that do not span the whole register (no n_qubits given)
+                dc = Circuit([Gate("X", 0), Gate("RY", 0, parameter=0.8)])
+                s.deflation_circuits = [dc, Circuit([Gate("H", 0)])]
+            else:
+                dc = Circuit([Gate("X", 0), Gate("RY", n - 1, parameter=0.8)], n_qubits=n)
+                s.deflation_circuits = [dc, Circuit([Gate("H", 0)], n_qubits=n)]
             s.deflation_coeff = cfg["defl_coeff"]
         return s
 
